@@ -15,7 +15,11 @@ fn main() {
         assert!(n >= 1, "{name}: expected at least one `std::sync::atomic::` import, found {n}");
         // every occurrence must be a path prefix of an import or a qualified use; rewriting all
         // of them keeps every atomic the file touches instrumented
-        let rewritten = src.replace("std::sync::atomic::", "crate::shim::atomic::");
+        let rewritten = src
+            .replace("std::sync::atomic::", "crate::shim::atomic::")
+            // the owner lock of the local queues (a yield-aware shim mutex, every lock attempt is a step)
+            .replace("std::sync::Mutex", "crate::shim::sync::Mutex")
+            .replace("std::sync::PoisonError", "crate::shim::sync::PoisonError");
         for needle in ["crossbeam_deque::", "st3::fifo::", "rand::"] {
             assert!(src.contains(needle), "{name}: expected the source to use `{needle}` (shim target)");
         }
